@@ -572,6 +572,127 @@ theorem c02_field_optional (name : Str) (b : BTy) (d : DefaultV) (v : Scalar) :
   · simp [postprocess, f, segVal]
   · simp [postprocess, f, segVal]
 
+/-! ### 4a. heterogeneous tuples: the `parse_tuple` closure (stateful `type=` callable)
+
+  Since fix b1a5942 the closure's call counter wraps (`item k mod n`), so whenever the counter is a
+  multiple of the arity — which it is at the start of every occurrence — the `n` tokens of one
+  occurrence are converted with the `n` item types in order. -/
+
+theorem bump_getD (cs : List Nat) (i : Nat) (hi : i < cs.length) :
+    (bump cs i).getD i 0 = cs.getD i 0 + 1 := by
+  unfold bump
+  simp [List.getD_eq_getElem?_getD, hi]
+
+theorem bump_length (cs : List Nat) (i : Nat) : (bump cs i).length = cs.length := by
+  simp [bump]
+
+/-- `n` successful calls of the closure of action `i` -/
+def bumpN (cs : List Nat) (i : Nat) : Nat → List Nat
+  | 0 => cs
+  | n + 1 => bumpN (bump cs i) i n
+
+theorem bumpN_getD (cs : List Nat) (i : Nat) (hi : i < cs.length) (n : Nat) :
+    (bumpN cs i n).getD i 0 = cs.getD i 0 + n := by
+  induction n generalizing cs with
+  | zero => rfl
+  | succ m ih =>
+    simp only [bumpN]
+    rw [ih (bump cs i) (by rw [bump_length]; exact hi), bump_getD cs i hi]
+    omega
+
+theorem succ_mod_of_lt (k n d : Nat) (hk : k % n = d) (hd : d + 1 < n) : (k + 1) % n = d + 1 := by
+  have h := Nat.div_add_mod k n
+  rw [hk] at h
+  rw [← h, Nat.add_assoc, Nat.mul_add_mod]
+  exact Nat.mod_eq_of_lt hd
+
+/-- the `parse_tuple` closure reads the remaining items of a tuple, each with its own type -/
+theorem getValuesList_tuple_aux (fenv : FEnv) (act : Act) (i : Nat) (all : List BTy)
+    (hconv : act.conv = .tupleCounter (all.map bconvOf)) (hch : act.choices = none) :
+    ∀ (todo : List (Scalar × BTy)) (done : List BTy) (cs : List Nat),
+      all = done ++ todo.map (·.2) → i < cs.length → cs.getD i 0 % all.length = done.length →
+      (∀ p ∈ todo, HasBTy fenv p.1 p.2) →
+      getValuesList fenv act i cs (todo.map (fun p => tokenOf p.1)) =
+        .ok (todo.map (·.1), bumpN cs i todo.length) := by
+  intro todo
+  induction todo with
+  | nil => intro done cs _ _ _ _; rfl
+  | cons p rest ih =>
+    intro done cs hall hi hk hty
+    obtain ⟨v, b⟩ := p
+    have hlen : all.length = done.length + (rest.length + 1) := by
+      rw [hall]; simp
+    have hidx : (all.map bconvOf)[cs.getD i 0 % (all.map bconvOf).length]? = some (bconvOf b) := by
+      rw [List.length_map, hk, hall]
+      simp
+    have hv := bconv_token fenv b v (hty (v, b) (by simp))
+    have hone : getValue fenv act i cs (tokenOf v) = .ok (v, bump cs i) := by
+      unfold getValue
+      simp only [hconv, Conv.apply, hidx, hv, hch]
+    simp only [List.map_cons, getValuesList, hone, List.length_cons, bumpN]
+    cases rest with
+    | nil => rfl
+    | cons q rest' =>
+      have := ih (done ++ [b]) (bump cs i) (by rw [hall]; simp) (by rw [bump_length]; exact hi)
+        (by
+          rw [bump_getD cs i hi, List.length_append, List.length_singleton]
+          apply succ_mod_of_lt _ _ _ hk
+          rw [hlen]; simp)
+        (fun p hp => hty p (by simp [hp]))
+      simp only [this]
+
+/-- **a heterogeneous `Tuple[T1, …, Tn]` occurrence**: with the closure counter at a multiple of the
+    arity, the canonical tokens of values `v1 : T1, …, vn : Tn` convert back to exactly those values
+    (each with its own item type), and the counter is again a multiple of the arity afterwards — so
+    the same holds for the next occurrence and the next parse (any number of them). -/
+theorem c02_tuple_occurrence (fenv : FEnv) (act : Act) (i : Nat) (items : List (Scalar × BTy))
+    (hconv : act.conv = .tupleCounter (items.map (fun p => bconvOf p.2))) (hch : act.choices = none)
+    (cs : List Nat) (hi : i < cs.length) (hk : cs.getD i 0 % items.length = 0)
+    (hty : ∀ p ∈ items, HasBTy fenv p.1 p.2) :
+    getValuesList fenv act i cs (items.map (fun p => tokenOf p.1)) =
+        .ok (items.map (·.1), bumpN cs i items.length) ∧
+      (bumpN cs i items.length).getD i 0 % items.length = 0 := by
+  constructor
+  · have := getValuesList_tuple_aux fenv act i (items.map (·.2))
+      (by rw [hconv, List.map_map]; rfl) hch items [] cs (by simp) hi (by simpa using hk) hty
+    exact this
+  · rw [bumpN_getD cs i hi, Nat.add_mod, hk]
+    simp
+
+theorem tupleConv_hetero (bs : List BTy) (hne : allEq (bs.map ITy.base) = false) :
+    tupleConv (bs.map ITy.base) = some (.tupleCounter (bs.map bconvOf)) := by
+  cases bs with
+  | nil => simp [allEq] at hne
+  | cons b rest =>
+    simp only [List.map_cons] at hne ⊢
+    simp only [tupleConv, hne, Bool.false_eq_true, ↓reduceIte, List.filterMap_cons, List.filterMap_map]
+    clear hne
+    simp
+    induction rest with
+    | nil => rfl
+    | cons x xs ih => simp [ih]
+
+/-- **`Tuple[T1, …, Tn]` field** (item types not all equal): `get_arg_options` gives `nargs = n` and
+    the `parse_tuple` closure over the item types; `postprocess` turns argparse's list into a tuple -/
+theorem c02_field_tuple (name : Str) (bs : List BTy) (hne : allEq (bs.map ITy.base) = false)
+    (d : DefaultV) (hd : d ≠ .value (.sc .none)) (vs : List Scalar) (hvs : 2 ≤ vs.length) :
+    let f : FieldSpec := { name := name, ty := { inner := .tuple (bs.map ITy.base), optional := false }, default := d }
+    (argOptions f).map (fun ao => (ao.nargs, ao.conv, ao.choices, ao.isBool))
+        = some (.num bs.length, .tupleCounter (bs.map bconvOf), none, false) ∧
+      postprocess f (segVal (.num bs.length) vs) = .ok (.tuple vs) := by
+  intro f
+  constructor
+  · simp only [argOptions, f]
+    have hdn : (d = DefaultV.value (Val.sc Scalar.none)) = False := by simp [hd]
+    simp only [hdn, decide_false, Bool.false_eq_true, Bool.or_self, ↓reduceIte, tupleConv_hetero bs hne]
+    simp
+  · have : segVal (.num bs.length) vs = .list vs := by
+      unfold segVal
+      match vs, hvs with
+      | _ :: _ :: _, _ => rfl
+    rw [this]
+    simp [postprocess, f, listToTuple]
+
 /-! ### 4b. the whole flat pipeline: `parseFlat` = `postprocess` over what the engine stored
 
   `parse(Cls, args=render segs)` for one flat dataclass: `tableOf` (one action per field after the
